@@ -23,6 +23,8 @@ def make(cls, rnd):
             if s is not None:
                 return s, "plain", None
         return None
+    if cls == "flatten3":
+        return GM.gen_flatten3_discordant(rnd), "plain", None
     if cls == "double-flatten":
         for _ in range(60):
             b, info = GE.gen_plain(rnd, products_only=True, allow_take=False, max_ranks=4)
@@ -42,6 +44,10 @@ def make(cls, rnd):
         s, ext, info = GA.gen_affine(rnd)
         return s, "plain", ext
     if cls == "cascade":
+        if rnd.random() < 0.2:
+            r = GC.gen_reread(rnd)
+            if r is not None:
+                return r, "plain", None
         return GC.gen_cascade(rnd), "plain", None
     if cls == "spacetime":
         from .gen import spacetime as GS
